@@ -234,6 +234,26 @@ theorem Shadow.fieldUpd {s t : St} (h : Shadow s t) (fac : Factory) (d : MesgDef
 theorem fieldUpd_quiet (fac : Factory) (d : MesgDef) (fd : FieldDef) (f : DField) (s : St) : Quiet s (fieldUpd fac d fd f s) :=
   (noteTs_quiet _ _ _).trans (noteAcc_quiet _ _ _ _ _)
 
+/-- `s'` is `s` after reading: look-ups, options and everything value-level untouched -/
+structure Quiet' (s s' : St) : Prop where
+  o : s'.o = s.o
+  look : s'.look = s.look
+  ts : s'.q.ts = s.q.ts
+  lastOff : s'.q.lastOff = s.q.lastOff
+  acc : s'.q.acc = s.q.acc
+  msgs : s'.q.msgs = s.q.msgs
+  fileId : s'.q.fileId = s.q.fileId
+  hdr : s'.q.hdr = s.q.hdr
+
+theorem Quiet'.refl (s : St) : Quiet' s s := ⟨rfl, rfl, rfl, rfl, rfl, rfl, rfl, rfl⟩
+theorem Quiet'.trans {a b c : St} (h1 : Quiet' a b) (h2 : Quiet' b c) : Quiet' a c :=
+  ⟨h2.o.trans h1.o, h2.look.trans h1.look, h2.ts.trans h1.ts, h2.lastOff.trans h1.lastOff, h2.acc.trans h1.acc,
+   h2.msgs.trans h1.msgs, h2.fileId.trans h1.fileId, h2.hdr.trans h1.hdr⟩
+theorem Quiet'.adv (s : St) (k : Nat) : Quiet' s (adv s k) := ⟨rfl, rfl, rfl, rfl, rfl, rfl, rfl, rfl⟩
+theorem Quiet'.shadow {s s' t : St} (hq : Quiet' s s') (h : Shadow s t) : Shadow s' t :=
+  ⟨h.o.trans hq.o.symm, h.look.trans hq.look.symm, h.ts.trans hq.ts.symm, h.lastOff.trans hq.lastOff.symm,
+   h.acc.trans hq.acc.symm, h.msgs.trans hq.msgs.symm, h.fileId.trans hq.fileId.symm⟩
+
 /-! ### (C)'s state against (D)'s -/
 
 def tripF (fd : FieldDef) : DecProg.Triplet := (fd.num, fd.size, fd.bt)
@@ -247,15 +267,34 @@ structure CD (chk : Bool) (s : St) (st : DecProg.St) : Prop where
   cur : st.cur = s.q.cur
   crc : st.crc = s.q.crc16
   small : s.q.cur + s.rest.length < 4294967296
+  bytes : IsBytes s.rest
 
 theorem CD.of_quiet {chk : Bool} {s s' : St} {st : DecProg.St} (hq : Quiet s s') (h : CD chk s st) : CD chk s' st := by
   obtain ⟨h1, h2, _, h4, h5, _⟩ := hq
-  exact ⟨by rw [h1]; exact h.chk, by rw [h4]; exact h.cur, by rw [h5]; exact h.crc, by rw [h4, h2]; exact h.small⟩
+  exact ⟨by rw [h1]; exact h.chk, by rw [h4]; exact h.cur, by rw [h5]; exact h.crc, by rw [h4, h2]; exact h.small,
+    by rw [h2]; exact h.bytes⟩
+
+/-- error classes of (C) as (D) names them (`ctx`, `other` have no counterpart: never met on the common domain) -/
+def errD : Err → DecProg.Err
+  | .eof => .io .eof
+  | .notFit => .notFit
+  | .crc => .crc
+  | .defMissing => .defMissing
+  | .baseType => .invalidBaseType
+  | .ctx => .io .eof
+  | .other => .io .eof
 
 /-- the observable does not tell the two end-of-stream errors apart, and looks at the events only -/
 def EofBlind {β : Type} (obs : DecProg.Out → β) : Prop :=
   ∀ (st st' : DecProg.St) (e e' : ReadBuffer.RErr), st'.evs = st.evs →
     obs (DecProg.fail st' (.io e)) = obs (DecProg.fail st (.io e'))
+
+/-- what (D) collects for a field list: one entry per field of non-zero size, under its number, of that many bytes -/
+inductive Aligned : List FieldDef → List (Nat × List Nat) → Prop
+  | nil : Aligned [] []
+  | skip (fd : FieldDef) (fds : List FieldDef) (new : List (Nat × List Nat)) : fd.size = 0 → Aligned fds new → Aligned (fd :: fds) new
+  | take (fd : FieldDef) (fds : List FieldDef) (b : List Nat) (new : List (Nat × List Nat)) :
+      fd.size ≠ 0 → b.length = fd.size → IsBytes b → Aligned fds new → Aligned (fd :: fds) ((fd.num, b) :: new)
 
 theorem decodeField_zero (d : MesgDef) (fd : FieldDef) (s : St) (h0 : fd.size = 0)
     (hsh : ∃ sh, fieldShape (s.o.fac.create d.mesgNum fd.num) fd = .ok sh) : decodeField d fd s = .ok (none, s) := by
@@ -270,10 +309,10 @@ theorem fields_link {β : Type} (obs : DecProg.Out → β) (hobs : EofBlind obs)
       (k : DecProg.St → List (Nat × Bytes) → DecProg.P) (R : β),
     CD chk s st → (∀ f ∈ fds, btValid f.bt = true ∧ f.size < 256) → facBtOK s.o.fac = true →
     (match decodeFields d fds pre s with
-      | .ok (fs, s') => ∀ st' new, Same st st' → CD chk s' st' →
+      | .ok (fs, s') => ∀ st' new, Same st st' → CD chk s' st' → Aligned fds new →
           (∀ t, Shadow s t → ∃ t', iFields d fds new pre t = .ok (fs, t') ∧ Shadow s' t') →
           obs (runExact (k st' (accD ++ new)) s'.rest) = R
-      | .err _ => R = obs (DecProg.fail st (.io .eof))
+      | .err e => R = obs (DecProg.fail st (errD e))
       | .panic => True
       | .hang => True) →
     obs (runExact (DecProg.fields chk (fds.map tripF) st accD k) s.rest) = R := by
@@ -282,7 +321,7 @@ theorem fields_link {β : Type} (obs : DecProg.Out → β) (hobs : EofBlind obs)
   | nil =>
     intro pre s st accD k R hcd _ _ h
     simp only [decodeFields] at h
-    have := h st [] (Same.refl _) hcd (fun t ht => ⟨t, rfl, ht⟩)
+    have := h st [] (Same.refl _) hcd Aligned.nil (fun t ht => ⟨t, rfl, ht⟩)
     simpa [DecProg.fields] using this
   | cons fd fds ih =>
     intro pre s st accD k R hcd hfds hfac h
@@ -304,8 +343,8 @@ theorem fields_link {β : Type} (obs : DecProg.Out → β) (hobs : EofBlind obs)
         obtain ⟨fs, s'⟩ := p
         rw [hd] at h
         simp only at h ⊢
-        intro st' new hs hcd' hshadow
-        apply h st' new hs hcd'
+        intro st' new hs hcd' hal hshadow
+        apply h st' new hs hcd' (Aligned.skip fd fds new h0 hal)
         intro t ht
         obtain ⟨t', h1, h2⟩ := hshadow { t with rest := [] } (ht.rest [])
         refine ⟨t', ?_, h2⟩
@@ -330,10 +369,11 @@ theorem fields_link {β : Type} (obs : DecProg.Out → β) (hobs : EofBlind obs)
             { st with cur := st.cur + fd.size, crc := if chk = true then write st.crc (s.rest.take fd.size) else st.crc } := by
           apply CD.of_quiet hq
           have hsm := hcd.small
-          refine ⟨hcd.chk, ?_, ?_, ?_⟩
+          refine ⟨hcd.chk, ?_, ?_, ?_, ?_⟩
           · simp only [adv]; rw [hcd.cur, Nat.mod_eq_of_lt (by omega)]
           · simp only [adv, hcd.chk, hcd.crc]
           · simp only [adv, List.length_drop]; rw [Nat.mod_eq_of_lt (by omega)]; omega
+          · exact IsBytes.drop' hcd.bytes _
         have hrest : (fieldUpd s.o.fac d fd f (adv s fd.size)).rest = s.rest.drop fd.size := hq.2.1
         have hfac1 : facBtOK (fieldUpd s.o.fac d fd f (adv s fd.size)).o.fac = true := by rw [hq.1]; exact hfac
         rw [← hrest]
@@ -346,8 +386,9 @@ theorem fields_link {β : Type} (obs : DecProg.Out → β) (hobs : EofBlind obs)
           obtain ⟨fs, s'⟩ := p
           rw [hd] at h
           simp only at h ⊢
-          intro st' new hs hcd' hshadow
-          have := h st' ((fd.num, s.rest.take fd.size) :: new) ⟨hs.evs, hs.defs, hs.descs, hs.msgs⟩ hcd' (by
+          intro st' new hs hcd' hal hshadow
+          have := h st' ((fd.num, s.rest.take fd.size) :: new) ⟨hs.evs, hs.defs, hs.descs, hs.msgs⟩ hcd'
+            (Aligned.take fd fds _ new h0 (by simp; omega) (IsBytes.take' hcd.bytes _) hal) (by
             intro t ht
             have hb : ({ t with rest := s.rest.take fd.size } : St).rest.length = fd.size := by simp; omega
             obtain ⟨t', h1, h2⟩ := hshadow (fieldUpd s.o.fac d fd f (adv { t with rest := s.rest.take fd.size } fd.size))
@@ -369,5 +410,167 @@ theorem fields_link {β : Type} (obs : DecProg.Out → β) (hobs : EofBlind obs)
         rw [h]
         simp only [runExact]
         exact hobs _ _ _ _ rfl
+
+theorem validBaseType_eq (b : Nat) : DecProg.validBaseType b = btValid b := by
+  by_cases h : b < 256
+  · have : ∀ b, b < 256 → DecProg.validBaseType b = btValid b := by decide +kernel
+    exact this b h
+  · have h1 : DecProg.validBaseType b = false := by
+      simp only [DecProg.validBaseType, Fit.Gen.Integ.validBaseTypes, List.contains_eq_mem, List.mem_cons, List.not_mem_nil,
+        or_false, decide_eq_false_iff_not]
+      omega
+    have hl : baseTypeSizes.length = 256 := by decide +kernel
+    have h2 : btValid b = false := by
+      unfold btValid btSize
+      rw [List.getD_eq_getElem?_getD, List.getElem?_eq_none (by omega)]; rfl
+    rw [h1, h2]
+
+theorem decodeDevField_zero (d : MesgDef) (dd : DevDef) (fdsc : Desc) (s : St) (h0 : dd.size = 0)
+    (hv : btValid fdsc.bt = true) : decodeDevField d dd fdsc s = .ok (none, s) := by
+  have hv' : (!validBaseType fdsc.bt) = false := by simp [validBaseType, hv]
+  unfold decodeDevField
+  simp only [hv', Bool.false_eq_true, if_false, h0, Nat.not_lt_zero, gt_iff_lt, Bind.bind, Res.bind, Pure.pure, if_true]
+
+theorem find_descs (descs : List Desc) (ddi num : Nat) :
+    (descs.map descD).find? (fun d => decide (d.1 = ddi ∧ d.2.1 = num)) =
+      (descs.find? (fun f => f.ddi == ddi && f.fdn == num)).map descD := by
+  rw [List.find?_map]
+  congr 1
+  apply congrArg (fun p => List.find? p descs)
+  funext x
+  simp only [descD, Function.comp]
+  rw [Bool.eq_iff_iff]; simp only [Bool.and_eq_true, beq_iff_eq]
+  exact decide_eq_true_iff
+
+open Fit.ReadBuffer in
+/-- `decodeDevFields` of (C), `devFields` of (D) on the exact-n reader, `iDevs` of `apiOf` on what (D) collects -/
+theorem devs_link {β : Type} (obs : DecProg.Out → β) (hobs : EofBlind obs) (chk : Bool) (d : MesgDef) :
+    ∀ (dds : List DevDef) (accC : List DDev) (s : St) (st : DecProg.St) (accD : List (Nat × Nat × Bytes))
+      (k : DecProg.St → List (Nat × Nat × Bytes) → DecProg.P) (R : β),
+    CD chk s st → (∀ f ∈ dds, f.size < 256) →
+    (match decodeDevFields d dds accC s with
+      | .ok (dv, s') => ∀ st' new, Same st st' → CD chk s' st' → Quiet' s s' →
+          (∀ t, Shadow s t → ∃ t', iDevs d new accC t = .ok (dv, t') ∧ Shadow s' t') →
+          obs (runExact (k st' (accD ++ new)) s'.rest) = R
+      | .err e => R = obs (DecProg.fail st (errD e))
+      | .panic => True
+      | .hang => True) →
+    obs (runExact (DecProg.devFields chk (s.look.descs.map descD) (dds.map tripD) st accD k) s.rest) = R := by
+  intro dds
+  induction dds with
+  | nil =>
+    intro accC s st accD k R hcd _ h
+    simp only [decodeDevFields] at h
+    have := h st [] (Same.refl _) hcd (Quiet'.refl s) (fun t ht => ⟨t, rfl, ht⟩)
+    simpa [DecProg.devFields] using this
+  | cons dd dds ih =>
+    intro accC s st accD k R hcd hdds h
+    have hdd := hdds dd (by simp)
+    have hdds' : ∀ f ∈ dds, f.size < 256 := fun f hf => hdds f (by simp [hf])
+    have hszr : dd.size ≤ reservedbuf := by simp [reservedbuf]; omega
+    simp only [List.map_cons, tripD, DecProg.devFields]
+    unfold decodeDevFields at h
+    rw [find_descs]
+    -- the state after reading `dd.size` bytes
+    have hcd1 : dd.size ≤ s.rest.length → CD chk (adv s dd.size)
+        { st with cur := st.cur + dd.size, crc := if chk = true then write st.crc (s.rest.take dd.size) else st.crc } := by
+      intro hl
+      have hsm := hcd.small
+      refine ⟨hcd.chk, ?_, ?_, ?_, ?_⟩
+      · simp only [adv]; rw [hcd.cur, Nat.mod_eq_of_lt (by omega)]
+      · simp only [adv, hcd.chk, hcd.crc]
+      · simp only [adv, List.length_drop]; rw [Nat.mod_eq_of_lt (by omega)]; omega
+      · exact IsBytes.drop' hcd.bytes _
+    cases hfd : s.look.descs.find? (fun f => f.ddi == dd.idx && f.fdn == dd.num) with
+    | none =>
+      rw [hfd] at h
+      simp only [Option.map_none] at h ⊢
+      rw [readN_adv _ s hszr] at h
+      unfold DecProg.rdN
+      by_cases hl : dd.size ≤ s.rest.length
+      · rw [runExact_read_ok _ _ _ hl]
+        simp only [hl, if_true, Bind.bind, Res.bind] at h
+        have := ih accC (adv s dd.size) _ accD k R (hcd1 hl) hdds'
+        apply this
+        cases hd : decodeDevFields d dds accC (adv s dd.size) with
+        | err e => rw [hd] at h; exact h
+        | panic => trivial
+        | hang => trivial
+        | ok p =>
+          obtain ⟨dv, s'⟩ := p
+          rw [hd] at h
+          simp only at h ⊢
+          intro st' new hs hcd' hq hshadow
+          apply h st' new ⟨hs.evs, hs.defs, hs.descs, hs.msgs⟩ hcd' (Quiet'.trans (Quiet'.adv s dd.size) hq)
+          intro t ht
+          exact hshadow t ((Quiet'.adv s dd.size).shadow ht)
+      · rw [runExact_read_short _ _ _ (by omega)]
+        simp only [hl, if_false, Bind.bind, Res.bind] at h
+        rw [h]; simp only [runExact]; exact hobs _ _ _ _ rfl
+    | some fdsc =>
+      rw [hfd] at h
+      simp only [Option.map_some, descD] at h ⊢
+      rw [validBaseType_eq]
+      by_cases hv : btValid fdsc.bt = true
+      · simp only [hv, Bool.not_true, Bool.false_eq_true, if_false]
+        by_cases h0 : dd.size = 0
+        · simp only [h0, if_true]
+          rw [decodeDevField_zero d dd fdsc s h0 hv] at h
+          simp only [Bind.bind, Res.bind] at h
+          apply ih accC s st accD k R hcd hdds'
+          cases hd : decodeDevFields d dds accC s with
+          | err e => rw [hd] at h; exact h
+          | panic => trivial
+          | hang => trivial
+          | ok p =>
+            obtain ⟨dv, s'⟩ := p
+            rw [hd] at h
+            simp only at h ⊢
+            exact h
+        · simp only [h0, if_false]
+          rw [decodeDevField_eq d dd fdsc s hszr h0 hv] at h
+          unfold DecProg.rdN
+          by_cases hl : dd.size ≤ s.rest.length
+          · rw [runExact_read_ok _ _ _ hl]
+            simp only [hl, if_true] at h
+            have hblen : (s.rest.take dd.size).length = dd.size := by simp; omega
+            obtain ⟨f, hf⟩ := devPure_ok d dd fdsc (s.rest.take dd.size) hv hblen
+            rw [hf] at h
+            simp only [Bind.bind, Res.bind] at h
+            apply ih (accC ++ [f]) (adv s dd.size) _ (accD ++ [(dd.num, dd.idx, s.rest.take dd.size)]) k R (hcd1 hl) hdds'
+            cases hd : decodeDevFields d dds (accC ++ [f]) (adv s dd.size) with
+            | err e => rw [hd] at h; exact h
+            | panic => trivial
+            | hang => trivial
+            | ok p =>
+              obtain ⟨dv, s'⟩ := p
+              rw [hd] at h
+              simp only at h ⊢
+              intro st' new hs hcd' hq hshadow
+              have := h st' ((dd.num, dd.idx, s.rest.take dd.size) :: new) ⟨hs.evs, hs.defs, hs.descs, hs.msgs⟩ hcd'
+                (Quiet'.trans (Quiet'.adv s dd.size) hq) (by
+                intro t ht
+                obtain ⟨t', h1, h2⟩ := hshadow (adv { t with rest := s.rest.take dd.size } dd.size) ((ht.rest _).adv _ _)
+                refine ⟨t', ?_, h2⟩
+                unfold iDevs
+                have hdd : (⟨dd.num, (s.rest.take dd.size).length, dd.idx⟩ : DevDef) = dd := by
+                  cases dd; simp only [hblen]
+                simp only [ht.look, hfd, hdd]
+                rw [decodeDevField_eq d dd fdsc _ hszr h0 hv]
+                have htk : List.take dd.size (List.take dd.size s.rest) = List.take dd.size s.rest := by
+                  rw [List.take_take, Nat.min_self]
+                simp only [hblen, Nat.le_refl, if_true, htk, hf]
+                simp only [ht.look] at h1
+                exact h1)
+              simpa [List.append_assoc] using this
+          · rw [runExact_read_short _ _ _ (by omega)]
+            simp only [hl, if_false] at h
+            rw [h]; simp only [runExact]; exact hobs _ _ _ _ rfl
+      · have hv' : (!validBaseType fdsc.bt) = true := by simp [validBaseType, hv]
+        have hv2 : btValid fdsc.bt = false := by simpa using hv
+        simp only [hv2, Bool.not_false, if_true, runExact]
+        unfold decodeDevField at h
+        simp only [hv', if_true, Bind.bind, Res.bind] at h
+        rw [h]; rfl
 
 end Fit.Link
